@@ -52,7 +52,7 @@ def to_tla(o):
     if isinstance(o, bool):
         return "TRUE" if o else "FALSE"
     if isinstance(o, int):
-        return str(o)
+        return str(o) if o > -2147483648 else "(-2147483647-1)"   # the TLA+ parser rejects the literal 2147483648
     if isinstance(o, str):
         return json.dumps(o)
     if isinstance(o, (list, tuple)):
